@@ -25,7 +25,7 @@ func init() { core.Register(c06{}) }
 func (c06) ID() string    { return "C06" }
 func (c06) Level() string { return "exploration" }
 func (c06) Rule() string {
-	return "cases = histories (plain and batch writes, deletes, oversized records, keys rewritten many times, all-deleted and empty databases; 1..3 merges with restarts in between; file-size limits such that the output needs fewer, equal or more files: reopen with a smaller limit) in three modes: seq (no writer during Merge), hooked (at the merge.record hook, i.e. between the liveness test of a record and its rewrite, the harness issues Put/Delete on keys of the merged set from the merging goroutine's position in the schedule), racing (1..4 writer goroutines owning disjoint keys run Put/Delete while Merge runs). Oracle: dump vs model before Merge, right after Merge, after the adopting restart, after a second restart and after a third restart with writes in between; if Merge returned an error nothing may have changed; if it returned nil then after the adopting restart the merge directory must be gone and the files below the boundary id, decoded with vfmt, must hold only plain (untagged, non-tombstone) records, each key at most once, each one a record that was live when the merge started, and (seq mode) exactly the live set. Non-trivial: >=1 successful merge over >=3 files with >=1 dead version reclaimed, audited after adoption; distinct = hash of (mode, config, op list)"
+	return "cases = histories (plain and batch writes, deletes, oversized records, keys rewritten many times, all-deleted and empty databases; 1..3 merges with restarts in between; file-size limits such that the output needs fewer, equal or more files: reopen with a smaller limit) in three modes: seq (no writer during Merge), hooked (at the merge.record hook, i.e. between the liveness test of a record and its rewrite, the harness issues Put/Delete on keys of the merged set from the merging goroutine's position in the schedule), racing (1..4 writer goroutines owning disjoint keys run Put/Delete while Merge runs). Oracle: dump vs model before Merge, right after Merge, after the adopting restart, after a second restart and after a third restart with writes in between; if Merge returned an error nothing may have changed; if it returned nil then after the adopting restart the merge directory must be gone and the files below the boundary id, decoded with vfmt, must hold only plain (untagged, non-tombstone) records, each key at most once, each one a record that was live when the merge started, and (seq mode) exactly the live set. Non-trivial: >=1 successful merge over >=3 files with >=1 dead version reclaimed, audited after adoption; distinct = hash of (mode, config, op list) One extra case (thorough: four) holds ~270 MiB with 11 % dead data under DataFileMergeRatio 0.5 (the ratio precondition only exists above 256 MiB): Merge must report an error and change nothing, or - if it returns nil - the adopting restart must have removed the dead versions."
 }
 func (c06) Assumptions() []string {
 	return []string{"vfmt decodes files independently", "racing writers own disjoint keys so that the final model state is determined"}
@@ -56,7 +56,77 @@ func (c06) Cases(tier string, seed uint64) []core.Case {
 		out = append(out, core.Case{Index: i, ID: fmt.Sprintf("c06-%05d", i), Seed: r.U64(),
 			Data: c06Case{Cfg: cfg, Mode: modes[i%len(modes)], NOps: r.Range(30, 140), Var: vars[(i/5)%len(vars)]}})
 	}
+	// the garbage-ratio precondition only exists above 256 MiB of accounted data: one case
+	// (thorough: four) with ~270 MiB, 11 % of it dead, DataFileMergeRatio 0.5
+	nr := 1
+	if tier == "thorough" {
+		nr = 4
+	}
+	for j := 0; j < nr; j++ {
+		cfg := core.Config{IndexType: core.IndexTypes[j%3], ShardNum: 4, FileIO: byte(j % 2), DataFileSize: 64 << 20, MergeRatio: 0.5}
+		out = append(out, core.Case{Index: len(out), ID: fmt.Sprintf("c06-ratio-%d", j), Seed: r.U64(), Data: c06Case{Cfg: cfg, Mode: "ratio"}})
+	}
 	return out
+}
+
+// runRatio: Merge on a large database whose dead share is below DataFileMergeRatio. Either
+// Merge reports an error (and nothing changes), or - if it claims success - the adopting
+// restart must leave the directory without the dead versions.
+func runRatio(c core.Case, cc c06Case, w *core.Worker) core.Result {
+	res := core.Result{}
+	dir := w.Dir("big")
+	s := core.NewSession(dir, cc.Cfg, &res)
+	s.NoStates = true
+	if !s.Open() {
+		return res
+	}
+	r := core.NewRng(c.Seed)
+	for i := 0; i < 68 && !s.Dead; i++ {
+		s.Exec(core.Op{Kind: "put", Key: []byte(fmt.Sprintf("big%02d", i)), VLen: 4<<20 - r.Range(0, 4000), VSeed: r.U64() | 1})
+	}
+	for i := 0; i < 8 && !s.Dead; i++ { // 8 of 68 overwritten: ~11 % garbage
+		s.Exec(core.Op{Kind: "put", Key: []byte(fmt.Sprintf("big%02d", i*7)), VLen: 4<<20 - r.Range(0, 4000), VSeed: r.U64() | 1})
+	}
+	if s.Dead {
+		return res
+	}
+	dirBytes := func() int64 {
+		var n int64
+		for _, f := range core.DataFiles(dir) {
+			if b, err := mon.ReadLogical(dir+"/"+f, -1); err == nil {
+				n += int64(len(b))
+			}
+		}
+		return n
+	}
+	st := s.DB.Stat()
+	before := st.DiskSize
+	var merr error
+	core.Safe(func() { merr = s.DB.Merge() })
+	s.Log = append(s.Log, fmt.Sprintf("merge->%v", merr))
+	res.Add("ratio_merges", 1)
+	res.SetAdd("merge_error_kinds", fmt.Sprint(merr))
+	s.CheckDump("after Merge on a database above the ratio threshold size")
+	if !s.Dead {
+		s.Exec(core.Op{Kind: "restart"})
+	}
+	if !s.Dead && merr == nil {
+		// claimed success: the 8 dead 4 MiB versions must be gone after the adopting restart
+		if after := dirBytes(); after > before-24<<20 {
+			res.Violate(fmt.Sprintf("Merge returned nil on a %d MiB database with ~32 MiB of dead records (DataFileMergeRatio 0.5), but after the adopting restart the data files still hold %d MiB: nothing was reclaimed and no error was reported", before>>20, after>>20),
+				map[string]string{"class": "merge", "kind": "not-reclaimed", "mode": "ratio", "variant": "ratio", "io": fmt.Sprint(cc.Cfg.FileIO)}, map[string]any{"config": cc.Cfg})
+		}
+	}
+	if s.DB != nil {
+		s.Close()
+	}
+	for _, k := range []string{"merges_ok", "adoptions_audited", "dead_versions_reclaimed", "writes_during_scan", "racing_merges"} {
+		res.Add(k, 0)
+	}
+	res.Nontrivial = before > 256<<20
+	res.Hash = core.HashBytes([]byte(fmt.Sprint("ratio", cc.Cfg)))
+	res.Sample = map[string]any{"kind": "ratio", "disk_size_before": before, "merge_result": fmt.Sprint(merr)}
+	return res
 }
 
 func maxDataID(dir string) int {
@@ -71,6 +141,9 @@ func maxDataID(dir string) int {
 
 func (c06) Run(c core.Case, w *core.Worker) core.Result {
 	cc := c.Data.(c06Case)
+	if cc.Mode == "ratio" {
+		return runRatio(c, cc, w)
+	}
 	res := core.Result{}
 	root := w.Dir("root")
 	dir := filepath.Join(root, "db")
